@@ -238,10 +238,10 @@ pub fn run(ctx: &Ctx) -> i32 {
     // semantic lane: explicit modes probed by trait resolution (bound(*) constrains parameters that occur only in
     // ignored fields, custom predicates add only what is written, false adds nothing)
     match engine::build_proc_macro() {
-        Ok(so) => crate::props::c11::lane(ctx, &mut rep, &so, ctx.scale(600, 8000), 0xC125, true, "C12-sem"),
+        Ok(so) => crate::props::c11::lane(ctx, &mut rep, &so, ctx.scale(1500, 8000), 0xC125, true, "C12-sem"),
         Err(e) => rep.inconclusive.push(e.0),
     }
-    let n = ctx.scale(10000, 200000);
+    let n = ctx.scale(40000, 200000);
     let mut trees = check::draw(ctx.seed, 0xC12, n, 520);
     let dnas: Vec<Vec<u16>> = trees.iter().map(|t| t.current()).collect();
     use rayon::prelude::*;
